@@ -674,6 +674,21 @@ Definition q_named (x : query) : list (option string * nkind) := fst (run_hist 0
 Definition invented_names (x : query) : list string := invented_of (q_named x).
 Definition given_sub_names (x : query) : list string := given_sub_of (q_named x).
 Definition subquery_names (x : query) : list string := sub_of (q_named x).
+(* do_join: the alias name ++ "2" written onto an un-aliased joined table that is already among the base tables *)
+Definition name2_of (base : list tref) (joins : list (jhow * source * jcond)) : list string :=
+  flat_map (fun j => match snd (fst j) with
+                     | SrcT t => match talias t with
+                                 | None => if existsb (tref_eqb t) base then [(tname t ++ "2")%string] else []
+                                 | Some _ => [] end
+                     | _ => [] end) joins.
+Definition name2_names (x : query) : list string :=
+  match x with
+  | QSel _ _ _ _ from joins _ _ _ _ _ _ _ _ => name2_of (base_tables from) joins
+  | QUpd _ tbl _ from joins _ _ => name2_of (tbl :: base_tables from) joins
+  | _ => []
+  end.
+(* every name the builder makes up in one statement *)
+Definition builder_names (x : query) : list string := invented_names x ++ name2_names x.
 (* the in-statement names of ALL sources (alias if any, else table name), and the aliases as the objects carry them *)
 Definition source_names (x : query) : list string := map table_name (q_srcs x).
 Definition source_aliases (x : query) : list (option string) := map talias (q_srcs x).
